@@ -9,6 +9,7 @@ package simrt
 
 import (
 	"context"
+	"runtime/debug"
 	"sort"
 	"sync"
 	"sync/atomic"
@@ -73,6 +74,9 @@ var (
 	// YieldEnabled decides, in fine mode, whether a yield site parks. nil = every site.
 	YieldEnabled func(site string) bool
 	yieldCache   = map[string]bool{}
+
+	// OnPanic, when set, receives panics of spawned actors (they are recovered).
+	OnPanic func(actor string, v any, stack []byte)
 
 	// Counters.
 	YieldParks uint64
@@ -172,6 +176,15 @@ func start(name string, fn func()) {
 			delete(actors, id)
 			delete(alive, name)
 			mu.Unlock()
+		}()
+		defer func() {
+			// A panic in a goroutine of the system under test would kill the whole worker
+			// process; report it to the harness instead, which ends the run with a violation.
+			if OnPanic != nil {
+				if p := recover(); p != nil {
+					OnPanic(name, p, debug.Stack())
+				}
+			}
 		}()
 		Yield("start")
 		fn()
